@@ -80,4 +80,15 @@ def run(ctx):
     ctx.guarded(r, XC.check_constants)
     r = ctx.rule("R5h", "aarch64 extern callbacks compute their builder's namesake with arguments in order", 43)
     ctx.guarded(r, lambda rule, root=None: J.r3_callbacks(rule, root=root, files=J.A64, abi="C"))
+    from .. import a64sem as XS
 
+    r = ctx.rule("R5i", "aarch64 branch-free arithmetic clauses leave op(lhs, rhs) in every lane of the output (symbolic lanes, output aliased to either operand)", 10 + 8 + 12 + 9)
+    for kind in X64.KINDS:
+        ctx.guarded(r, XS.check_lane_semantics, kind)
+    r = ctx.rule("R5j", "aarch64: four-lane evaluators use 128-bit arrangements only; load_imm drops no bit of the constant on any path; fixed stack slots end below STACK_SIZE", 49 + 12 + 4)
+    for kind in X64.KINDS:
+        ctx.guarded(r, XC.check_full_width, kind)
+        ctx.guarded(r, XC.check_load_imm, kind)
+        ctx.guarded(r, XC.check_fixed_area, kind)
+    r = ctx.rule("R5k", "aarch64 single-point / interval min and max branch only on conditions that are false for NaN and for equal operands (the value then comes from fmin / fmax, which propagate NaN like the interpreter)", 8)
+    ctx.guarded(r, XC.check_strictness)
